@@ -7,6 +7,8 @@ import (
 	"testing"
 	"time"
 
+	mail "github.com/wneessen/go-mail"
+
 	"verif/sim/refsmtpd"
 	"verif/sim/sim"
 )
@@ -289,6 +291,106 @@ func (p *c19) build(seed uint64, tier string) []C19Scenario {
 			}
 		}
 	}
+	if DialSeam {
+		// go-mail's own dialers (no WithDialContextFunc): net.Dialer for the STARTTLS policies,
+		// tls.Dialer for implicit TLS, the fallback port behind WithSSLPort(true), and QuickSend,
+		// which builds its Client itself
+		for _, auth := range []string{"", "PLAIN", "SCRAM-SHA-256", "AUTODISCOVER"} {
+			for _, op := range []string{"dial", "dialandsend", "quicksend"} {
+				for _, pol := range []string{"mandatory", "opportunistic", "none", "implicit", "implicit-fallback"} {
+					if op == "quicksend" && (pol != "opportunistic" || (auth != "" && auth != "AUTODISCOVER")) {
+						continue // QuickSend has one policy and one auth type
+					}
+					base := func() C19Scenario {
+						caps := []string{"8BITMIME", "ENHANCEDSTATUSCODES", "STARTTLS", authCaps(allMechs...)}
+						c := ClientCfg{TLSPolicy: pol, AuthType: auth, User: "user-c19", Pass: "pass-c19-Zq8", DefaultDialer: true}
+						s := C19Scenario{Client: c, Op: op, Server: refsmtpd.Config{Caps: caps, TLS: refsmtpd.TLSCfg{Cert: "valid"},
+							Auth: refsmtpd.AuthCfg{User: "user-c19", Pass: "pass-c19-Zq8", Salt: []byte("saltsalt"), Iter: 64}}}
+						if strings.HasPrefix(pol, "implicit") {
+							s.Client.TLSPolicy = "implicit"
+							s.Server.ImplicitTLS = true
+							s.Server.Caps = []string{"8BITMIME", "ENHANCEDSTATUSCODES", authCaps(allMechs...)}
+						}
+						if pol == "implicit-fallback" {
+							s.Client.SSLPort, s.DialFail = true, 1
+						}
+						if op != "dial" {
+							s.Msgs = []MsgSpec{SimpleMsg("m1", "a@dest.example", "b@dest.example")}
+						}
+						return s
+					}
+					pre := "defaultdialer:" + pol + ":"
+					{
+						s := base()
+						s.Step = pre + "none"
+						add(s)
+					}
+					type stepDef struct {
+						label, verb string
+						nth         int
+						on          bool
+					}
+					starttls := pol == "mandatory" || pol == "opportunistic"
+					steps := []stepDef{{"GREET", "GREET", 1, true}, {"EHLO", "EHLO", 1, true}, {"STARTTLS", "STARTTLS", 1, starttls},
+						{"EHLO-after-TLS", "EHLO", 2, starttls}, {"AUTH", "AUTH", 1, auth != ""}}
+					if op != "dial" {
+						steps = append(steps, stepDef{"NOOP", "NOOP", 1, true}, stepDef{"MAIL", "MAIL", 1, true}, stepDef{"RCPT-2", "RCPT", 2, true},
+							stepDef{"DATA", "DATA", 1, true}, stepDef{"EOD", "EOD", 1, true}, stepDef{"RSET", "RSET", 1, true}, stepDef{"QUIT", "QUIT", 1, true})
+					}
+					for si, st := range steps {
+						if !st.on {
+							continue
+						}
+						for fi, fk := range failKinds {
+							if tier != "thorough" && op != "quicksend" && (si+fi)%2 != 0 {
+								continue
+							}
+							s := base()
+							s.Step = pre + st.label
+							s.Server.Rules = []refsmtpd.Rule{{Verb: st.verb, Nth: st.nth, Action: fk}}
+							add(s)
+							if st.verb != "QUIT" && (tier == "thorough" || (si+fi)%3 == 0) {
+								s := base()
+								s.Step = pre + st.label + "+QUIT"
+								s.Server.Rules = []refsmtpd.Rule{{Verb: st.verb, Nth: st.nth, Action: fk}, {Verb: "QUIT", Nth: 1, Action: refsmtpd.Action{Code: 421, Text: "closing"}}}
+								add(s)
+							}
+						}
+					}
+					if pol != "none" {
+						for _, cert := range []string{"wrongname", "untrusted", "garbage", "stall"} {
+							s := base()
+							s.Step = pre + "TLS-handshake-" + cert
+							s.Server.TLS.Cert = cert
+							add(s)
+						}
+					}
+					if strings.HasPrefix(pol, "implicit") {
+						// the peer speaks plain SMTP where TLS was expected
+						s := base()
+						s.Step = pre + "peer-speaks-plain-smtp"
+						s.Server.ImplicitTLS = false
+						add(s)
+					}
+					for n := 1; n <= 10; n++ {
+						if tier != "thorough" && (idx+n)%3 != 0 {
+							continue
+						}
+						s := base()
+						s.Step = fmt.Sprintf("%swrite-fails#%d", pre, n)
+						s.Conn = sim.ConnFaults{WriteFailNth: n}
+						add(s)
+					}
+					for n := 1; n <= 4; n++ {
+						s := base()
+						s.Step = fmt.Sprintf("%ssetdeadline-fails#%d", pre, n)
+						s.Conn = sim.ConnFaults{SetDeadlineFailNth: n}
+						add(s)
+					}
+				}
+			}
+		}
+	}
 	p.cache[key] = out
 	return out
 }
@@ -312,6 +414,22 @@ func (p *c19) Exec(t *testing.T, scAny any) Outcome {
 	res := RunSim(t, sc.Sched, sim.Policy{Kind: "random"}, 0, time.Hour, func(k *sim.Kernel) (func(), func()) {
 		env = &NetEnv{K: k, Srv: refsmtpd.New(k, sc.Server, TLSMat), Faults: []sim.ConnFaults{sc.Conn}, Host: sc.Client.host(), DialFail: sc.DialFail}
 		return func() {
+			if sc.Op == "quicksend" {
+				if !setDefaultDial(env.Dial) {
+					out.Infra = "QuickSend needs the dial seam"
+					return
+				}
+				var auth *mail.AuthData
+				if sc.Client.AuthType != "" {
+					auth = mail.NewAuthData(sc.Client.User, sc.Client.Pass)
+				}
+				ms := sc.Msgs[0]
+				call = env.Call("QuickSend", func() error {
+					_, err := mail.QuickSend(sc.Client.host()+":25", auth, ms.From, ms.To, "quick", []byte("quick content\r\nsecond line\r\n"))
+					return err
+				})
+				return
+			}
 			c, err := BuildClient(sc.Client, env.Dial, nil)
 			if err != nil {
 				out.Infra = "client construction: " + err.Error()
@@ -417,14 +535,14 @@ func (p *c19) Exec(t *testing.T, scAny any) Outcome {
 		}
 	} else {
 		out.stat("op-succeeded", 1)
-		if sc.Op == "dialandsend" {
+		if sc.Op == "dialandsend" || sc.Op == "quicksend" {
 			for _, pp := range env.Pipes {
 				if !pp.Client.Closed() {
-					out.violate("C19:leak:dialandsend:success", "DialAndSend returned nil but the connection is still open")
+					out.violate("C19:leak:"+sc.Op+":success", "%s returned nil but the connection is still open", call.Name)
 				}
 			}
 			if !quitSeen {
-				out.violate("C19:noquit:dialandsend:success", "DialAndSend returned nil but the server never saw QUIT")
+				out.violate("C19:noquit:"+sc.Op+":success", "%s returned nil but the server never saw QUIT", call.Name)
 			}
 		}
 	}
